@@ -955,6 +955,11 @@ class Interp:
                 fn._loop_ordinals = table
             if id(node) in table:
                 return '%s#L%d' % (q, table[id(node)])
+            if not table and self.loop_counter.get(q, 0) == 0:
+                # the function has no loop statement and this is its first desugared loop (`yield from (x for x in xs)`):
+                # it takes the place of loop 0, so a contract stated for `for x in xs: ... yield ...` still applies
+                self.loop_counter[q] = 1
+                return '%s#L0' % q
         n = self.loop_counter.get(q, 0)
         self.loop_counter[q] = n + 1
         return '%s#X%d' % (q, n)
@@ -1251,7 +1256,12 @@ class Interp:
 
     def cut_for(self, node, env, label, src):
         """src: lib.SymSource describing the opaque iterable"""
-        spec = self.find_loop_spec(label) or LoopSpec()
+        spec = self.find_loop_spec(label)
+        if spec is None:
+            # a loop cut WITHOUT a loop contract: everything it may modify is havocked and nothing is known afterwards.  A
+            # refutation found on such a path may be an artefact of the missing invariant (undecided, not a violation)
+            self.path.info.setdefault('needs_invariant', 'loop %s is cut without a loop contract' % label.split('.')[-1])
+            spec = LoopSpec()
         modes = [m for m in ('iter', 'exit') if m in spec.modes]
         if getattr(src, 'may_raise', False) and ('raise' in spec.modes or spec.modes == ('iter', 'exit')):
             modes.append('raise')
@@ -1391,6 +1401,16 @@ class Interp:
         b = self.lib.builtin(self, node.id)
         if b is not None:
             return b
+        # a local of the running function that is read before it was assigned (e.g. after an `except` that swallowed the
+        # failure of the statement that binds it): Python raises UnboundLocalError
+        fn = self.frames[-1] if self.frames else None
+        fnode = getattr(fn, 'node', None)
+        if fnode is not None and not getattr(fn, 'is_module', False) and not isinstance(fnode, ast.Lambda):
+            for n in _walk_no_nested(fnode.body):
+                if isinstance(n, ast.Name) and n.id == node.id and isinstance(n.ctx, ast.Store):
+                    self.lib.EXC_PARENT.setdefault('UnboundLocalError', 'NameError')
+                    self.lib.EXC_PARENT.setdefault('NameError', 'Exception')
+                    raise PyExc(ExcV('UnboundLocalError', ("local variable '%s' referenced before assignment" % node.id,)))
         raise Unsupported('unbound name %s' % node.id)
 
     def mangle(self, name):
